@@ -15,6 +15,9 @@ CLAIMED = {
  "C15": ("command-table extraction and gate-shape matching; effect analysis; dominance on go/cfg",
          "the gate matrix is structural: every write-class arm (and eval/evalsha) carries the follower and read-only gates before dispatch; every object-reading handler is behind the catching-up gate; the three script class switches agree with each other and with the lock table; the authentication test dominates the lock switch with a fixed exemption set; authd is only set on the password-equality edge; the protected-mode test precedes the first read; every documented command has a dispatch arm",
          "the final reply texts and the config setters themselves (value-level)"),
+ "C08": ("lock-state dataflow for the dirty flag; must-pass-through on go/cfg with helper summaries",
+         "the pre-write protocol: every store to the dirty flag happens under the exclusive lock (so flush and clear are one critical section), every socket write of buffered replies is separated from the handled command by the dirty test or a flush under the lock, every append sets the flag, flushAOF writes the whole buffer before truncating it and does not drop the error",
+         "kill instants (write(2) durability is trusted) — interleavings are covered by the lock argument, not enumerated"),
 }
 
 NOT_APPLICABLE = {
